@@ -263,6 +263,9 @@ class PropertyRun:
         'inconclusive': inconclusive[:20],
         'known_findings_hit': [k['id'] for k, _ in known_hits],
         'selftest_validated': st_n,
+        'second_solver_cvc5': {
+            k[5:]: sum(j['reached'].get(k, 0) for j in per_job)
+            for k in ('cvc5_agree', 'cvc5_disagree', 'cvc5_undecided')},
         'rebound_globals': _rebound(),
     }
     level = mod.LEVEL
@@ -335,6 +338,9 @@ def main(argv=None):
     _pl.getLogger('absl').setLevel(_pl.CRITICAL)
   except Exception:  # pylint: disable=broad-except
     pass
+  if a.tier == 'thorough':
+    # second solver on every 4th decided obligation (cvc5 binary, 20 s)
+    os.environ.setdefault('VERIF_CROSSCHECK', '4')
   mod = importlib.import_module(f'props.{a.prop.lower()}')
   if a.replay:
     with open(a.replay) as f:
